@@ -15,8 +15,9 @@ def reply? (s : String) : Option Reply :=
       if probRev.isEmpty then none else do
       let st ← status.toNat?
       let prob := undash (":".intercalate probRev.reverse)
-      let n := undash nonce
-      pure (.resp ⟨st, prob, if n.isEmpty then none else some n⟩)
+      -- Replay-Nonce fields: `-` = no header, else values joined by `+`, `~` = an empty value
+      let hdr := if nonce == "-" then [] else (nonce.splitOn "+").map fun v => if v == "~" then "" else v
+      pure (.resp ⟨st, prob, hdr⟩)
     | [] => none
   | [] => none
 
@@ -69,7 +70,9 @@ def runPool : List String → List String → Option (List String)
     if op == "c" then runPool [] rest
     else if op == "d" then (runPool [] rest).map (joinOr (sortS pool) :: ·)
     else match op.splitOn ":" with
-      | ["a", v] => runPool (addNonce pool (if undash v == "" then none else some (undash v))) rest
+      | ["a", v] =>
+        let hdr := if v == "-" then [] else (v.splitOn "+").map fun f => if f == "~" then "" else f
+        runPool (addNonce pool (nonceFromHeader hdr)) rest
       | _ => none
 
 def handlePool (o : Op) : String :=
